@@ -246,6 +246,44 @@ func run(c *hc.Ctx) error {
 		add(line, got)
 	}
 
+	// ---- 1b. dense sweep: every payload length 8, 12, …, 4096 for every protocol, three consecutive
+	// lengths per connection (a byte lost or added by one frame desynchronises the next)
+	for _, kind := range c16c17.Kinds {
+		for l := 8; l <= 4096; l += 12 {
+			seq0 := int64(r.Intn(50))
+			cdW := c16c17.NewCodec(kind, seq0)
+			var wire bytes.Buffer
+			var sent [][]byte
+			for j := 0; j < 3; j++ {
+				p := genPayload(r, l+4*j)
+				rnd := r.Bytes(4)
+				before := wire.Len()
+				if err, pn := writeOne(kind, cdW, &wire, append([]byte{}, p...), rnd); err != nil || pn != nil {
+					fail(c, "write-error:"+kind, fmt.Sprintf("enc %s %d %s %s", kind, seq0+int64(j), hc.Hex(rnd), hc.Hex(p)), fmt.Sprint(err, pn))
+					break
+				}
+				if l%96 == 8 { // exact wire bytes against the model for a sample; all through decall below
+					add(fmt.Sprintf("enc %s %d %s %s", kind, seq0+int64(j), hc.Hex(rnd), hc.Hex(p)), "ok "+hc.Hex(wire.Bytes()[before:]))
+				}
+				sent = append(sent, p)
+			}
+			stream := append([]byte{}, wire.Bytes()...)
+			items, end := readAll(c16c17.NewCodec(kind, seq0), &c16c17.Chunked{Data: stream, Rng: r.Fork(), Mode: r.Intn(3)}, len(sent)+1)
+			line := fmt.Sprintf("decall %s %d %s", kind, seq0, hc.Hex(stream))
+			c.Eval(line, true)
+			c.Count("frame." + kind + ".dense-8..4104")
+			var want []string
+			for _, p := range sent {
+				want = append(want, "f:"+hc.Hex(p))
+			}
+			got := strings.Join(items, " ") + " end:" + end
+			if got != strings.Join(want, " ")+" end:none" {
+				fail(c, "roundtrip:"+kind, line, fmt.Sprintf("payloads of %d, %d, %d bytes: receiver got %d items ending %q", l, l+4, l+8, len(items), end))
+			}
+			add(line, got)
+		}
+	}
+
 	// ---- 2. Write's validity checks
 	for i := 0; i < c.N(300, 5000); i++ {
 		kind := hc.Pick(r, c16c17.Kinds...)
